@@ -274,12 +274,12 @@ def run(tier):
     nwk = 6 if quick else vlib.NCPU
     gens = {
         "mc": lambda: c10.gen_modules("MIRModule_mc.cfg", workers=2),
-        "sim": lambda: c10.gen_modules("MIRModule_sim11.cfg", n=480 if quick else 20000, workers=nwk, seed=vlib.seed() + 11),
-        "prog": lambda: progs.generate(32 if quick else 240, seed=vlib.seed() + 1100, workers=nwk, cfg="MIRProg_exec.cfg"),
+        "sim": lambda: c10.gen_modules("MIRModule_sim11.cfg", n=480 if quick else 10000, workers=nwk, seed=vlib.seed() + 11),
+        "prog": lambda: c10.safe_programs(32 if quick else 240, seed=vlib.seed() + 1100, workers=nwk, cfg="MIRProg_exec.cfg"),
         "big": lambda: c10.gen_modules("MIRModule_big.cfg", workers=2, env=big_env(tier), timeout=1200),
     }
     if not quick:
-        gens["mci"] = lambda: c10.gen_modules("MIRModule_mci.cfg", workers=vlib.NCPU, timeout=2400)
+        gens["mci"] = lambda: c10.gen_modules("MIRModule_t.cfg", workers=vlib.NCPU, timeout=2400)
     with ThreadPoolExecutor(max_workers=len(gens) if quick else 2) as ex:
         futs = {k: ex.submit(f) for k, f in gens.items()}
         got = {k: f.result() for k, f in futs.items()}
@@ -293,7 +293,7 @@ def run(tier):
     if not quick:
         c_mci, r = got["mci"]
         states += r.distinct; trans += r.states
-        groups.append(("insns_exhaustive", c_mci[::3]))
+        groups.append(("insns_exhaustive", c_mci[::5]))
     pc, rr = got["prog"]
     states += rr.states; trans += rr.states
     c_prog, skipped = c10.prog_cases(exe, pc)
@@ -380,8 +380,9 @@ def run(tier):
 
     vlib.log("  histories replayed at %.0fs" % (c10.time.time() - ck.t0))
     # ---- (i) TLC parses the writer's output
-    budget = 300000 if quick else 14000000
-    jobs = sorted(decode_jobs.values(), key=lambda j: len(j[0]))
+    budget = 300000 if quick else 8000000
+    # smallest first; streams needed to settle a byte-string difference (long double padding) before the others
+    jobs = sorted(decode_jobs.values(), key=lambda j: (0 if j[2].get("_ldcheck") else 1, len(j[0])))
     sel, tot = [], 0
     for j in jobs:
         if tot + len(j[0]) > budget:
@@ -444,7 +445,7 @@ def run(tier):
 
     vlib.log("  %d streams (%d bytes) parsed by TLC at %.0fs" % (len(sel), tot, c10.time.time() - ck.t0))
     # ---- (ii) token streams generated by TLC (MIRBin.Encode) through the real compressor into the real reader
-    enc_src = [c for c in c_mc[:: (6 if quick else 1)]] + c_sim[: (90 if quick else 4000)] + [c_str[0]]
+    enc_src = [c for c in c_mc[:: (6 if quick else 1)]] + c_sim[: (90 if quick else 2000)] + [c_str[0]]
     enc_src = [c10.strip_features(c, strip | ({"expr"} if False else set())) for c in enc_src]
     ecases = []
     for i, c in enumerate(enc_src):
